@@ -3,5 +3,6 @@ import Nervus.Model.OKey
 import Nervus.Spec.OrderedValue
 import Nervus.Props.C27
 import Nervus.Model.BTree
+import Nervus.Model.BTreeReal
 import Nervus.Spec.Multimap
 import Nervus.Props.C26
